@@ -167,32 +167,39 @@ theorem bgvTensorSI_poly_alias_sound (I : Interp α) (h : TensorLaws I .mform) (
     first | exact h.comm _ _ | exact hM.comm _ _ | exact h.swap _ _ _ _ | exact hM.swap _ _ _ _
           | exact h.sq _ _ | exact hM.sq _ _
 
-/-- scale of bgv.tensorScaleInvariant: correct for every pattern except `out = op1 ≠ op0` -/
-theorem bgvTensorSI_scale_alias_sound (I : Interp α) (relin : Bool) (al : Alias) (hal : al ≠ .outOp1)
-    (σ : Store α) :
+/-- scale of bgv.tensorScaleInvariant (code with fix C05-10): every pattern -/
+theorem bgvTensorSI_scale_alias_sound (I : Interp α) (relin : Bool) (al : Alias) (σ : Store α) :
     let p := al.pat
     run I (bgvTensorSIProg relin p) σ (L p.out fScale) =
+      I.fn .sinv [σ (L p.op0 fScale), σ (L p.op1 fScale)] := by
+  cases al <;> cases relin <;>
+  simp (config := {decide := true}) [Alias.pat, bgvTensorSIProg, L, st, fScale, bq, bqp, Step.exec, bct, bqm]
+
+/-- scale of bgv.tensorScaleInvariant BEFORE fix C05-10: correct for every pattern except `out = op1 ≠ op0` -/
+theorem bgvTensorSIOld_scale_alias_sound (I : Interp α) (relin : Bool) (al : Alias) (hal : al ≠ .outOp1)
+    (σ : Store α) :
+    let p := al.pat
+    run I (bgvTensorSIProgOld relin p) σ (L p.out fScale) =
       I.fn .sinv [σ (L p.op0 fScale), σ (L p.op1 fScale)] := by
   cases al <;> cases relin
   all_goals first
     | exact absurd rfl hal
-    | simp (config := {decide := true}) [Alias.pat, bgvTensorSIProg, L, st, fScale, bq, bqp, Step.exec, bct, bqm]
+    | simp (config := {decide := true}) [Alias.pat, bgvTensorSIProgOld, L, st, fScale, bq, bqp, Step.exec, bct, bqm]
 
-/-- what the code computes for `out = op1`: the scale of `op0` is used twice (evaluator.go:1037,
-    `tmp1Q0` is `ct0` after the swap of evaluator.go:983-984) -/
-theorem bgvTensorSI_outOp1_scale (I : Interp α) (relin : Bool) (σ : Store α) :
-    run I (bgvTensorSIProg relin Alias.outOp1.pat) σ (L 1 fScale) =
+/-- what the code before fix C05-10 computed for `out = op1`: the scale of `op0` twice -/
+theorem bgvTensorSIOld_outOp1_scale (I : Interp α) (relin : Bool) (σ : Store α) :
+    run I (bgvTensorSIProgOld relin Alias.outOp1.pat) σ (L 1 fScale) =
       I.fn .sinv [σ (L 0 fScale), σ (L 0 fScale)] := by
   cases relin <;>
-  simp (config := {decide := true}) [Alias.pat, bgvTensorSIProg, L, st, fScale, bq, bqp, Step.exec, bct, bqm]
+  simp (config := {decide := true}) [Alias.pat, bgvTensorSIProgOld, L, st, fScale, bq, bqp, Step.exec, bct, bqm]
 
-/-- `alias_sound` is FALSE for bgv.tensorScaleInvariant with `out = op1`: witness in the `Int`
-    interpretation (scales 6 and 2: the code yields sinv(6,6) = 180, the specification sinv(6,2) = 60) -/
-theorem bgvTensorSI_outOp1_counterexample :
-    ∃ σ : Store Int, run intI (bgvTensorSIProg false Alias.outOp1.pat) σ (L 1 fScale) ≠
+/-- `alias_sound` was FALSE for bgv.tensorScaleInvariant with `out = op1` before fix C05-10: witness in
+    the `Int` interpretation (scales 6 and 2: the code yields sinv(6,6) = 180, the specification 60) -/
+theorem bgvTensorSIOld_outOp1_counterexample :
+    ∃ σ : Store Int, run intI (bgvTensorSIProgOld false Alias.outOp1.pat) σ (L 1 fScale) ≠
       intI.fn .sinv [σ (L 0 fScale), σ (L 1 fScale)] := by
   refine ⟨testStore, ?_⟩
-  rw [bgvTensorSI_outOp1_scale]
+  rw [bgvTensorSIOld_outOp1_scale]
   decide
 
 /-! ## bgv.matchScaleThenEvaluateInPlace -/
@@ -200,12 +207,30 @@ theorem bgvTensorSI_outOp1_counterexample :
 def matchF (I : Interp α) (sa sb a b : α) : α :=
   I.fn .mulSAdd [b, I.fn .r1 [sa, sb], I.fn .mulS [I.fn .r0 [sa, sb], a]]
 
-/-- sound for `all distinct`, `out = op0`, `op0 = op1` (the last one is not reachable from
-    bgv.Add, which takes this path only when the two scales differ) -/
-theorem bgvMatchScale_alias_sound (I : Interp α) (al : Alias) (hal : al ≠ .outOp1 ∧ al ≠ .allEq)
-    (σ : Store α) :
+/-- code with fix C05-4: sound for ALL five patterns (the copy `el1.CopyNew()` is the identity on
+    values: hypothesis `hcopy`) -/
+theorem bgvMatchScale_alias_sound (I : Interp α) (hcopy : ∀ x, I.fn .copy [x] = x) (al : Alias) (σ : Store α) :
     let p := al.pat
     let σ' := run I (bgvMatchScaleProg p) σ
+    let sa := σ (L p.op0 fScale); let sb := σ (L p.op1 fScale)
+    σ' (L p.out 0) = matchF I sa sb (σ (L p.op0 0)) (σ (L p.op1 0)) ∧
+    σ' (L p.out 1) = matchF I sa sb (σ (L p.op0 1)) (σ (L p.op1 1)) ∧
+    σ' (L p.out fScale) = I.fn .smul [sa, I.fn .r0 [sa, sb]] ∧
+    ∀ x, Untouched p x → x.obj ≠ heapTmp → σ' x = σ x := by
+  cases al
+  all_goals
+    simp (config := {decide := true}) [Alias.pat, bgvMatchScaleProg, matchF, L, st, fScale, fMeta, bq, bqp, Step.exec,
+      Untouched, bct, bqm, heapTmp, hcopy]
+  all_goals
+    intro x h1 h2 h3 h4 h5 h6
+    simp [fun f => loc_ne_of_obj_ne (f := f) h1, fun f => loc_ne_of_obj_ne (f := f) h2,
+      fun f => loc_ne_of_obj_ne (f := f) h6]
+
+/-- the code BEFORE fix C05-4: sound for `all distinct`, `out = op0`, `op0 = op1` only -/
+theorem bgvMatchScaleOld_alias_sound (I : Interp α) (al : Alias) (hal : al ≠ .outOp1 ∧ al ≠ .allEq)
+    (σ : Store α) :
+    let p := al.pat
+    let σ' := run I (bgvMatchScaleProgOld p) σ
     let sa := σ (L p.op0 fScale); let sb := σ (L p.op1 fScale)
     σ' (L p.out 0) = matchF I sa sb (σ (L p.op0 0)) (σ (L p.op1 0)) ∧
     σ' (L p.out 1) = matchF I sa sb (σ (L p.op0 1)) (σ (L p.op1 1)) ∧
@@ -215,63 +240,72 @@ theorem bgvMatchScale_alias_sound (I : Interp α) (al : Alias) (hal : al ≠ .ou
   case outOp1 => exact absurd rfl hal.1
   case allEq => exact absurd rfl hal.2
   all_goals
-    simp (config := {decide := true}) [Alias.pat, bgvMatchScaleProg, matchF, L, st, fScale, bq, bqp, Step.exec,
+    simp (config := {decide := true}) [Alias.pat, bgvMatchScaleProgOld, matchF, L, st, fScale, bq, bqp, Step.exec,
       Untouched, bct, bqm]
   all_goals frame_tac
 
-/-- what the code computes with `out = op1`: op1 has been overwritten by `r0·op0` before it is read -/
-theorem bgvMatchScale_outOp1_value (I : Interp α) (σ : Store α) (i : Nat) (hi : i = 0 ∨ i = 1) :
-    run I (bgvMatchScaleProg Alias.outOp1.pat) σ (L 1 i) =
+/-- what the code before fix C05-4 computed with `out = op1`: op1 overwritten by `r0·op0` before it is read -/
+theorem bgvMatchScaleOld_outOp1_value (I : Interp α) (σ : Store α) (i : Nat) (hi : i = 0 ∨ i = 1) :
+    run I (bgvMatchScaleProgOld Alias.outOp1.pat) σ (L 1 i) =
       let sa := σ (L 0 fScale); let sb := σ (L 1 fScale)
       let t := I.fn .mulS [I.fn .r0 [sa, sb], σ (L 0 i)]
       I.fn .mulSAdd [t, I.fn .r1 [sa, sb], t] := by
   rcases hi with rfl | rfl <;>
-  simp (config := {decide := true}) [Alias.pat, bgvMatchScaleProg, L, st, fScale, bq, bqp, Step.exec, bct, bqm]
+  simp (config := {decide := true}) [Alias.pat, bgvMatchScaleProgOld, L, st, fScale, bq, bqp, Step.exec, bct, bqm]
 
-/-- `alias_sound` is FALSE for bgv.matchScaleThenEvaluateInPlace with `out = op1` -/
-theorem bgvMatchScale_outOp1_counterexample :
-    ∃ σ : Store Int, run intI (bgvMatchScaleProg Alias.outOp1.pat) σ (L 1 0) ≠
+/-- `alias_sound` was FALSE for bgv.matchScaleThenEvaluateInPlace with `out = op1` before fix C05-4 -/
+theorem bgvMatchScaleOld_outOp1_counterexample :
+    ∃ σ : Store Int, run intI (bgvMatchScaleProgOld Alias.outOp1.pat) σ (L 1 0) ≠
       matchF intI (σ (L 0 fScale)) (σ (L 1 fScale)) (σ (L 0 0)) (σ (L 1 0)) := by
   refine ⟨testStore, ?_⟩
-  rw [bgvMatchScale_outOp1_value _ _ 0 (Or.inl rfl)]
+  rw [bgvMatchScaleOld_outOp1_value _ _ 0 (Or.inl rfl)]
   decide
 
 /-! ## bgv.Add / bgv.Mul with a caller-owned *big.Int -/
 
-theorem bgvAddBig_result (I : Interp α) (al : Alias) (hal : al = .distinct ∨ al = .outOp0) (σ : Store α) :
+/-- code with fixes C05-1/C05-2: right result, receiver scale set, caller's big.Int intact -/
+theorem bgvAddBig_sound (I : Interp α) (hcopy : ∀ x, I.fn .copy [x] = x) (al : Alias)
+    (hal : al = .distinct ∨ al = .outOp0) (σ : Store α) :
     let p := al.pat
     let σ' := run I (bgvAddBigProg p) σ
     let s := I.fn .bigTInv [I.fn .bigCenter [I.fn .bigModT [I.fn .bigScale [σ (L bigArg 0), σ (L p.op0 fScale)]]]]
     σ' (L p.out 0) = I.fn .addBig [σ (L p.op0 0), s] ∧
-    (p.out ≠ p.op0 → σ' (L p.out 1) = I.fn .copy [σ (L p.op0 1)]) ∧
-    (p.out = p.op0 → σ' (L p.out 1) = σ (L p.op0 1)) ∧
-    σ' (L bigArg 0) = s := by
+    σ' (L p.out fScale) = σ (L p.op0 fScale) ∧
+    σ' (L bigArg 0) = σ (L bigArg 0) := by
   rcases hal with rfl | rfl <;>
-  simp (config := {decide := true}) [Alias.pat, bgvAddBigProg, L, st, fScale, bq, bqp, Step.exec, bct, bqm, bigArg]
+  simp (config := {decide := true}) [Alias.pat, bgvAddBigProg, L, st, fScale, bq, bqp, Step.exec, bct, bqm, bigArg, hcopy]
 
-/-- `inputs_unchanged` is FALSE for bgv.Add with a *big.Int operand: the caller's number is
-    overwritten by its scaled, centred, T⁻¹-multiplied version (evaluator.go:209-219) -/
-theorem bgvAddBig_inputs_counterexample :
-    ∃ σ : Store Int, run intI (bgvAddBigProg Alias.distinct.pat) σ (L bigArg 0) ≠ σ (L bigArg 0) := by
-  refine ⟨testStore, ?_⟩
-  rw [(bgvAddBig_result intI .distinct (Or.inl rfl) testStore).2.2.2]
-  decide
-
-theorem bgvMulBig_result (I : Interp α) (al : Alias) (hal : al = .distinct ∨ al = .outOp0) (σ : Store α) :
+theorem bgvMulBig_sound (I : Interp α) (al : Alias) (hal : al = .distinct ∨ al = .outOp0) (σ : Store α) :
     let p := al.pat
     let σ' := run I (bgvMulBigProg p) σ
     let s := I.fn .bigCenter [I.fn .bigModT [σ (L bigArg 0)]]
     σ' (L p.out 0) = I.fn .mulBig [σ (L p.op0 0), s] ∧
     σ' (L p.out 1) = I.fn .mulBig [σ (L p.op0 1), s] ∧
-    σ' (L bigArg 0) = s := by
+    σ' (L bigArg 0) = σ (L bigArg 0) := by
   rcases hal with rfl | rfl <;>
   simp (config := {decide := true}) [Alias.pat, bgvMulBigProg, L, st, fScale, bq, bqp, Step.exec, bct, bqm, bigArg]
 
-/-- `inputs_unchanged` is FALSE for bgv.Mul with a *big.Int operand (evaluator.go:494-499) -/
-theorem bgvMulBig_inputs_counterexample :
-    ∃ σ : Store Int, run intI (bgvMulBigProg Alias.distinct.pat) σ (L bigArg 0) ≠ σ (L bigArg 0) := by
+theorem bgvAddBigOld_result (I : Interp α) (σ : Store α) :
+    run I (bgvAddBigProgOld Alias.distinct.pat) σ (L bigArg 0) =
+      I.fn .bigTInv [I.fn .bigCenter [I.fn .bigModT [I.fn .bigScale [σ (L bigArg 0), σ (L 0 fScale)]]]] := by
+  simp (config := {decide := true}) [Alias.pat, bgvAddBigProgOld, L, st, fScale, Step.exec, bigArg]
+
+/-- `inputs_unchanged` was FALSE for bgv.Add with a *big.Int operand before fix C05-1 -/
+theorem bgvAddBigOld_inputs_counterexample :
+    ∃ σ : Store Int, run intI (bgvAddBigProgOld Alias.distinct.pat) σ (L bigArg 0) ≠ σ (L bigArg 0) := by
   refine ⟨testStore, ?_⟩
-  rw [(bgvMulBig_result intI .distinct (Or.inl rfl) testStore).2.2]
+  rw [bgvAddBigOld_result]
+  decide
+
+theorem bgvMulBigOld_result (I : Interp α) (σ : Store α) :
+    run I (bgvMulBigProgOld Alias.distinct.pat) σ (L bigArg 0) = I.fn .bigCenter [I.fn .bigModT [σ (L bigArg 0)]] := by
+  simp (config := {decide := true}) [Alias.pat, bgvMulBigProgOld, L, st, fScale, Step.exec, bigArg]
+
+/-- `inputs_unchanged` was FALSE for bgv.Mul with a *big.Int operand before fix C05-1 -/
+theorem bgvMulBigOld_inputs_counterexample :
+    ∃ σ : Store Int, run intI (bgvMulBigProgOld Alias.distinct.pat) σ (L bigArg 0) ≠ σ (L bigArg 0) := by
+  refine ⟨testStore, ?_⟩
+  rw [bgvMulBigOld_result]
   decide
 
 /-! ## rlwe.Evaluator.Automorphism -/
@@ -361,35 +395,47 @@ theorem resize_prefix (z : α) (d : Nat) (v : List α) (i : Nat) (hi : i < min v
   · simp [List.getElem?_take]; omega
   · rw [List.getElem?_append_left (by omega)]
 
-/-- history dependence of ct+ct Add (ckks evaluator.go:72-77, bgv evaluator.go:184-189): with an
-    output that previously had degree 2, adding two degree-1 ciphertexts leaves the old third
-    polynomial in place — the result differs from the one obtained with a fresh output. -/
-theorem addInto_degree_residue_counterexample :
-    addInto (0 : Int) (· + ·) [1, 2] [10, 20] [7, 8, 9] = [11, 22, 9] ∧
-    addInto (0 : Int) (· + ·) [1, 2] [10, 20] [0, 0] = [11, 22] := by
+/-- history dependence of ct+ct Add BEFORE fix C09-2 (InitOutputBinaryOp took the receiver's degree): with
+    an output that previously had degree 2, adding two degree-1 ciphertexts left the old third
+    polynomial in place. -/
+theorem addIntoOld_degree_residue_counterexample :
+    addIntoOld (0 : Int) (· + ·) [1, 2] [10, 20] [7, 8, 9] = [11, 22, 9] ∧
+    addIntoOld (0 : Int) (· + ·) [1, 2] [10, 20] [0, 0] = [11, 22] := by
   decide
 
-/-- … and it is history-free exactly when the previous degree of the output does not exceed the
-    operands' (general statement: the result is the sum followed by the untouched tail of the
-    resized output). -/
-theorem addInto_history_free (z : α) (add : α → α → α) (op0 op1 out : List α)
-    (h : out.length ≤ max op0.length op1.length) (h0 : op0 ≠ []) :
+theorem addLists_length (add : α → α → α) : ∀ (xs ys : List α),
+    (addLists add xs ys).length = max xs.length ys.length := by
+  intro xs
+  induction xs with
+  | nil => intro ys; simp [addLists]
+  | cons x xs ih =>
+    intro ys
+    cases ys with
+    | nil => simp [addLists]
+    | cons y ys => simp [addLists, ih]
+
+/-- with fix C09-2 ct+ct Add is history-free: whatever the receiver contained (any degree), the
+    result is the sum of the operands. -/
+theorem addInto_history_free (z : α) (add : α → α → α) (op0 op1 out : List α) (h0 : op0 ≠ []) :
     addInto z add op0 op1 out = addLists add op0 op1 := by
-  have hl : ∀ (xs ys : List α), (addLists add xs ys).length = max xs.length ys.length := by
-    intro xs
-    induction xs with
-    | nil => intro ys; simp [addLists]
-    | cons x xs ih =>
-      intro ys
-      cases ys with
-      | nil => simp [addLists]
-      | cons y ys => simp [addLists, ih]
   unfold addInto
+  have hlen := resize_length z (max (op0.length - 1) (op1.length - 1)) out
+  have h0' : 0 < op0.length := List.length_pos_iff.mpr h0
+  simp only []
+  rw [List.drop_eq_nil_of_le, List.append_nil]
+  rw [hlen, addLists_length]
+  omega
+
+/-- before the fix: history-free only when the receiver's previous degree did not exceed the operands' -/
+theorem addIntoOld_history_free (z : α) (add : α → α → α) (op0 op1 out : List α)
+    (h : out.length ≤ max op0.length op1.length) (h0 : op0 ≠ []) :
+    addIntoOld z add op0 op1 out = addLists add op0 op1 := by
+  unfold addIntoOld
   have hlen := resize_length z (max (max (op0.length - 1) (op1.length - 1)) (out.length - 1)) out
   have h0' : 0 < op0.length := List.length_pos_iff.mpr h0
   simp only []
   rw [List.drop_eq_nil_of_le, List.append_nil]
-  rw [hlen, hl]
+  rw [hlen, addLists_length]
   omega
 
 /-! ## rlwe.Evaluator.PartialTracesSum (InnerSum / Replicate) -/
